@@ -143,14 +143,32 @@ def build(ctx, topo):
     composition = hlib.make_composition(listed, **topo.get("comp_kwargs", {}))
     delays = []
     link_order = topo.get("link_order") or list(range(len(links)))
+    ada_cache = {}
+
+    def own_adapter(li, pos):
+        if (li, pos) not in ada_cache:
+            ada_cache[(li, pos)] = make_adapter(ctx, links[li]["ada_spec"][pos], f"{li}_{pos}", delays)
+        return ada_cache[(li, pos)]
+
+    def chain_elems(li):
+        """[output, adapters...] of link li; a tapped link shares the prefix of its parent link"""
+        l = links[li]
+        tap = topo["links"][li].get("tap")
+        if tap is not None:
+            prefix = chain_elems(tap[0])[: tap[1] + 2]
+        else:
+            prefix = [comps[l["src"]].outputs[l["out"]]]
+        return prefix + [own_adapter(li, pos) for pos in range(len(l["ada_spec"]))]
+
+    edges = set()
     for li in link_order:
         l = links[li]
-        cur = comps[l["src"]].outputs[l["out"]]
-        for pos, a in enumerate(l["ada_spec"]):
-            ada = make_adapter(ctx, a, f"{li}_{pos}", delays)
-            l["adapters"].append(ada)
-            cur = cur >> ada
-        cur >> comps[l["dst"]].inputs[l["inp"]]
+        elems = chain_elems(li) + [comps[l["dst"]].inputs[l["inp"]]]
+        for a, b in zip(elems, elems[1:]):
+            if (id(a), id(b)) not in edges:
+                a >> b
+                edges.add((id(a), id(b)))
+        l["adapters"] = elems[1:-1]
     return dict(comps=comps, listed=listed, links=links, composition=composition, base=base,
                 delays=delays, topo=topo)
 
